@@ -239,3 +239,40 @@ func repeatedMapSource(r *rand.Rand) string {
 	b.WriteString("nested := [{inn:m}] * 2\ndel m \"a\"\nm.q = 1\nprint nested m\ndel nested[0].inn \"b\"\nprint nested\n")
 	return b.String()
 }
+
+// selfEqualitySource: == and != between a composite and itself / an alias / a composite sharing an inner
+// one, with NaN, -0 and nested values inside: equality is by value (NaN differs from NaN), never by identity.
+func selfEqualitySource(r *rand.Rand) string {
+	var b strings.Builder
+	b.WriteString("zero := 0\nnan := 0 / zero\nnegz := -0 * 1\n")
+	b.WriteString("a := [nan 1]\nb := a\nm := {k:nan}\nn := m\ninner := [nan]\no1 := [inner [1]]\no2 := [inner [1]]\nw:any\nw = a\nplain := [1 2]\nq := plain\nz1 := [negz]\nz2 := [0]\n")
+	lines := []string{
+		"print (a == a) (a != a) (a == b) (b != a)",
+		"print (m == m) (m != n) (n == m)",
+		"print (o1 == o2) (o1 != o2) (o1[0] == inner) (o1[1] == o2[1])",
+		"print (w == w) (plain == q) (plain != q) (plain == plain)",
+		"print (z1 == z2) (z1 != z2) (nan == nan) (nan != nan)",
+		"print ([a] == [a]) ({x:a} == {x:a}) ([m] != [n])",
+		"print (a[0] == a[0]) (a[1] == b[1]) (m.k == n.k)",
+		"if a == b\n    print \"same\"\nelse\n    print \"differ\"\nend",
+		"c := a + []\nprint (c == a) (c[1:] == a[1:]) (c[:1] == a[:1])",
+		"func same:bool x:[]num y:[]num\n    return x == y\nend\nprint (same a a) (same plain plain) (same a b)",
+	}
+	r.Shuffle(len(lines), func(i, j int) { lines[i], lines[j] = lines[j], lines[i] })
+	for _, l := range lines {
+		b.WriteString(l + "\n")
+	}
+	return b.String() + "print a m o1 w z1\n"
+}
+
+// nestedStringStoreSources: assignment targets that index into a string reached through an array element or
+// a map field. The parser rejects them like `s[0] = "x"`; whatever it accepts must run soundly.
+var nestedStringStoreSources = []string{
+	"names := [\"ab\" \"cd\"]\nnames[0][1] = \"x\"\nprint names\n",
+	"person := {name:\"greta\"}\nperson.name[0] = \"G\"\nprint person\n",
+	"board := [{rows:[\"ab\"]}]\nboard[0].rows[0][0] = \"x\"\nprint board\n",
+	"m := {a:[\"xy\"]}\nm[\"a\"][0][1] = \"z\"\nprint m\n",
+	"func f\n    l := [\"ab\"]\n    l[0][0] = \"q\"\n    print l\nend\nf\n",
+	"s := \"ab\"\ns[0] = \"x\"\nprint s\n",
+	"arr := [[\"ab\"]]\nfor i := range 1\n    arr[i][0][1] = \"c\"\nend\nprint arr\n",
+}
